@@ -669,11 +669,24 @@ def correspond(ctx):
                 "wrong types, unknown keywords, unwritable paths, warnings turned into errors, …) are mixed in: the object "
                 "must then be in the state the model has after the valid calls, and the session goes on; CALL FORMS: every "
                 "call is written positionally in the documented order / with keywords / mixed, defaults left out or given "
-                "explicitly (fixed by a hash of the call); non-trivial = session with an output, then an accepted mutation, then another output; "
+                "explicitly (fixed by a hash of the call); COPIES: at random points the session goes on with the copy.copy / "
+                "copy.deepcopy / pickle round trip of the object (must equal the object), list / dict / array arguments are "
+                "handed in as they are or as copies; SEQUENCES: tuples / numpy object arrays / generators / iterators / map "
+                "objects in place of a documented list — used as valid input where the code takes them like the list "
+                "(probed once per run), otherwise they have to be refused or ignored without any change; ENVIRONMENT: "
+                "write_to_file gets absolute paths, bare relative names in a fresh working directory, './name', relative "
+                "paths into a sub-directory; one call in three runs under np.seterr(all='warn'), terse print options and "
+                "advanced random / np.random states, which (like the working directory) must be left as found; TEXT: "
+                "labels and multi-line comments with non-ASCII characters, trailing blanks, CRLF, delimiters; non-trivial = session with an output, then an accepted mutation, then another output; "
                 "distinct by canonical input + observation mode")
     ctx.assumptions.append("np.delete/np.insert/np.vstack/np.average(axis=0, weights)/np.sum(axis=0) contracts; "
                            "csv.writer + repr(float) round trip (the CSV is compared after float() parsing); reading an "
-                           "attribute of the object runs no code of the class")
+                           "attribute of the object runs no code of the class; outside the statement (observed on the "
+                           "clean code, not asserted): scale_histogram silently ignores a tuple / generator of factors (the "
+                           "documentation names list and ndarray), a numpy object array as bin edges is accepted by the "
+                           "constructor but unusable afterwards (never generated), add_bin accepts a NaN edge; a text "
+                           "starting with '#' as a label and a double quote inside a comment are not generated (a csv reader "
+                           "re-interprets them)")
     n = ctx.n(250, 5000)
     cases, lines = [], []
     for j in range(n):
